@@ -722,6 +722,9 @@ def values(spec, mat: Materialised, *, budget: int = 3, json64: bool = False, ma
                         alts.append(V(c).map(lambda x, sc=sc: str(plain_wire(sc, x, mat))))
                     except _Exhausted:
                         pass
+                if sc["k"] == "enum":
+                    # ... and the *names* of an Enum sibling's members (a text is a member's value or it is no member)
+                    alts.append(st.sampled_from([n for n, _ in sc["members"]]))
         return st.one_of(*alts)
     if k == "class":
         C = mat.cls(spec)
